@@ -237,19 +237,17 @@ def lookupEntityAttr (dom strict : Bool) (Γ : TEnv) (tys : List String) (a : St
 /-- `hasResultTypeEntity` says `Bool` iff SOME element of the LUB declares the attribute (never `True`) -/
 def anyHasAttr (Γ : TEnv) (tys : List String) (a : String) : Bool := tys.any (fun t => hasKey a (declOf Γ t).attrs)
 
-/-- `entityHasTags`: EVERY element of the LUB declares tags -/
-def entityHasTags (Γ : TEnv) (tys : List String) : Bool := tys.all (fun t => (declOf Γ t).tags.isSome)
+/-- `entityHasTags`: SOME element of the LUB declares tags (only then can an entity of the LUB carry a tag).  Before the
+    repair of `hastag-lub-mixed-tags` the Go function demanded tags on EVERY element. -/
+def entityHasTags (Γ : TEnv) (tys : List String) : Bool := tys.any (fun t => (declOf Γ t).tags.isSome)
 
-/-- some, but not all, elements of the LUB declare tags (outside the proved domain, see `C15_hasTag_mixed_counterexample`) -/
-def mixedTags (Γ : TEnv) (tys : List String) : Bool :=
-  tys.any (fun t => (declOf Γ t).tags.isSome) && !entityHasTags Γ tys
-
-/-- `entityTagType`: LUB of the declared tag types, `Never` (and no error) as soon as an element has no tags; `none` = error -/
+/-- `entityTagType`: LUB of the tag types of the elements that declare tags (elements without tags are skipped: an entity
+    carrying a tag has one of the other types); `Never` if none does; `none` = error -/
 def entityTagType (dom strict : Bool) (Γ : TEnv) : Ty → List String → Option Ty
   | acc, [] => some acc
   | acc, t :: ts =>
     match (declOf Γ t).tags with
-    | none => some .never
+    | none => entityTagType dom strict Γ acc ts
     | some tagTy =>
       match lub dom strict acc tagTy with
       | none => none
@@ -260,11 +258,14 @@ def entityTagType (dom strict : Bool) (Γ : TEnv) : Ty → List String → Optio
 def isEntityDescendant (Γ : TEnv) (child anc : String) : Option Bool :=
   (Schema.descVisFuel (entityParentsOf Γ) (Γ.entityDecls.length + 1) child anc []).map (·.1)
 
-/-- inner loop of `anyEntityDescendantOf` -/
+/-- inner loop of `anyEntityDescendantOf`.  An ACTION entity type may be below an action entity type of any name: action
+    membership is given by the action hierarchy (a group may be declared in another namespace), not by `ParentTypes`
+    (repair of `in-action-type-cross-namespace`) -/
 def anyDescInner (Γ : TEnv) (lt : String) : List String → Option Bool
   | [] => some false
   | rt :: rs =>
     if lt == rt then some true else
+    if isActionEntity lt && isActionEntity rt then some true else
     match isEntityDescendant Γ lt rt with
     | none => none
     | some true => some true
